@@ -27,6 +27,7 @@
   `2 * len(key) + 2` frames always suffice on a closed store.
 -/
 import LemoModel.Mpt
+import LemoModel.Rlp
 namespace LemoModel.MptStore
 open LemoModel.Mpt
 
@@ -497,6 +498,108 @@ def Trie.hash (small : CNode → Bool) (hashOf : CNode → Hash) (t : Trie) : Re
     match hashed hs r true with
     | .hash h => .ok (h, { t with root := cachedOf hs r true })
     | _ => .panic
+
+/-! ### the node codec at the level of RLP items (`node.go`, `encoding.go`, `hasher.store`)
+
+  `toItem c` is the RLP item `rlp.Encode(collapsed)` writes (C14's `LemoModel.Rlp.encode` turns it into
+  bytes): a short node is the list `[hexToCompact(Key), Val]`, a full node the list of its 17 children,
+  nil is the empty string, a hash node its 32 bytes, a value node its bytes.  `rlpSmall` is the real
+  embedding test `len(rlp) < 32` of `hasher.store`. -/
+
+/-- `hasTerm` -/
+def hasTerm (k : List Nib) : Bool := k.getLast? == some 16
+
+/-- `decodeNibbles`: two nibbles per byte -/
+def packNibbles : List Nib → List UInt8
+  | a :: b :: rest => UInt8.ofNat (a.val * 16 + b.val) :: packNibbles rest
+  | _ => []
+
+/-- `hexToCompact`: flag byte (terminator `<<5`, odd `<<4` | first nibble), then the packed nibbles -/
+def hexToCompact (hex : List Nib) : List UInt8 :=
+  let t := hasTerm hex
+  let h := if t then hex.dropLast else hex
+  let flag := if t then 32 else 0
+  if h.length % 2 = 1 then
+    match h with
+    | x :: rest => UInt8.ofNat (flag + 16 + x.val) :: packNibbles rest
+    | [] => []
+  else UInt8.ofNat flag :: packNibbles h
+
+def toItem : CNode → Rlp.Item
+  | .empty => .bytes []
+  | .value v => .bytes (v.map UInt8.ofNat)
+  | .hash h => .bytes (h.map UInt8.ofNat)
+  | .short K c => .list [.bytes (hexToCompact K), toItem c]
+  | .full ch => .list ((List.finRange 17).map (fun i => toItem (ch i)))
+
+/-- the blob `hasher.store` hashes and writes -/
+def nodeRlp (c : CNode) : List UInt8 := Rlp.encode (toItem c)
+
+/-- `h.tmp.Len() < 32`: the node is stored inside its parent -/
+def rlpSmall (c : CNode) : Bool := decide ((nodeRlp c).length < 32)
+
+/-- the same collapsed node with every hash reference replaced by 32 zero bytes (for sizes, when the
+    model's hashes are not 32 bytes long) -/
+def pad32 : CNode → CNode
+  | .hash _ => .hash (List.replicate 32 0)
+  | .short K c => .short K (pad32 c)
+  | .full ch => .full (fun i => pad32 (ch i))
+  | c => c
+
+/-! ### `proof.go`: `VerifyProof` and its helper `get`
+
+  `Trie.Prove` is commented out in /repo: there is no producer to model; a proof is any reader that
+  holds the nodes on the path.  The reader returns blobs; as everywhere here a blob is the collapsed
+  node it decodes to (a blob `decodeNode` rejects = a `CNode` that is not a short/full node).
+  `check = true` is the code since /repo commit 18a0e58 (`Keccak(buf) != wantHash` ⇒ error);
+  `check = false` is the code before that fix (the reader is trusted to be content-addressed). -/
+
+inductive PGet where
+  | nil
+  | hash (h : Hash) (rest : List Nib)
+  | value (v : Val)
+  | panic
+  deriving DecidableEq, Repr
+
+/-- `get(tn, key)`: walk inside one decoded node (through embedded children) -/
+def proofGet : CNode → List Nib → PGet
+  | .short K c, key =>
+    match stripPrefix K key with
+    | none => .nil
+    | some rest => proofGet c rest
+  | .full ch, key =>
+    match key with
+    | [] => .panic                      -- key[0]: index out of range
+    | k :: rest => proofGet (ch k) rest
+  | .hash h, key => .hash h key
+  | .empty, _ => .nil
+  | .value v, _ => .value v
+
+inductive ProofRes where
+  | value (v : Val) (nodes : Nat)       -- `return cld, nil, i+1`
+  | absent (nodes : Nat)                -- `return nil, nil, i`
+  | missing (i : Nat)                   -- "proof node %d missing"
+  | mismatch (i : Nat)                  -- "proof node %d does not hash to …" (since 18a0e58)
+  | bad (i : Nat)                       -- "bad proof node %d"
+  | panic
+  | diverge                             -- the `for` loop never ends (reader with a cycle)
+  deriving DecidableEq, Repr
+
+/-- `VerifyProof(rootHash, key, proofDb)` on the hex key; `fuel` bounds the loop -/
+def verifyProof (check : Bool) (hashOf : CNode → Hash) (r : Store) : Nat → Hash → List Nib → Nat → ProofRes
+  | 0, _, _, _ => .diverge
+  | fuel + 1, want, key, i =>
+    match r want with
+    | none => .missing i
+    | some c =>
+      if check && decide (hashOf c ≠ want) then .mismatch i
+      else if !c.isBranch then .bad i
+      else
+        match proofGet c key with
+        | .nil => .absent i
+        | .hash h rest => verifyProof check hashOf r fuel h rest (i + 1)
+        | .value v => .value v (i + 1)
+        | .panic => .panic
 
 /-! ### the node pool of /repo/store/trie_database.go
 
